@@ -50,6 +50,7 @@ class StmtMixin:
     def st_Expr(self, st, fr):
         if isinstance(st.value, ast.Constant):
             return
+        self._stmt_call = st.value
         v = self.eval(st.value, fr)
         if not isinstance(st.value, (ast.Call, ast.Yield, ast.YieldFrom, ast.NamedExpr, ast.Await)):
             self.effect("discard", st, fr, value=v)
